@@ -429,6 +429,33 @@ func genScenario(g *Gen, pf scnProfile) Case {
 			}
 			build := VB + "/layers/" + ln + "/build"
 			tgt := build + g.Pick("/proc", "/dev", "/mnt/host", "/mnt/sub", "/var/cache/binpkgs", "/mnt/gen", "/mnt/foreign", "", "x", ".old", ".old/sub", "/mnt/tmp")
+			if g.Chance(15, 100) {
+				// two mounts by hand on an import mountpoint and on a directory below it, after a
+				// mount of the layer: made in the order below-then-on, the second one covers the
+				// first (a hidden submount: finding umount-order-hidden-submount, the kernel refuses
+				// the unmount of the covered mountpoint); in the order on-then-below nothing is hidden
+				mp := build + g.Pick("/mnt/host", "/dev", "/var/cache/binpkgs", "/mnt/gen", "")
+				below := mp + g.Pick("/sub", "/sub", "/pts", "/x/y")
+				first, second := below, mp
+				if g.Chance(40, 100) {
+					first, second = mp, below
+				}
+				hand := func(t string) map[string]interface{} {
+					if g.Chance(50, 100) {
+						return obj("cmd", "sysmount", "args", hxs([]string{VB + "/hostsrc", t, "bind"}), "flags", float64(4096))
+					}
+					return obj("cmd", "sysmount", "args", hxs([]string{"tmpfs", t, "tmpfs"}), "flags", float64(0))
+				}
+				steps = append(steps, obj("cmd", "mount", "args", hxs([]string{ln})))
+				steps = append(steps, hand(first))
+				steps = append(steps, hand(second))
+				steps = append(steps, obj("cmd", "umount", "args", hxs([]string{ln})))
+				if g.Chance(50, 100) {
+					steps = append(steps, obj("cmd", "umount", "args", hxs([]string{""}), "all", true))
+				}
+				steps = append(steps, obj("cmd", "probe", "args", hxs([]string{})))
+				continue
+			}
 			switch g.Intn(7) {
 			case 0:
 				st["args"] = hxs([]string{VB + "/hostsrc", tgt, "bind"})
